@@ -2,6 +2,7 @@ import Splipy.Lemmas.C07Piece
 import Splipy.Lemmas.C07Append
 import Splipy.Lemmas.C07Periodic
 import Splipy.Lemmas.C07Subdivide
+import Splipy.Lemmas.C07SplitPer
 import Mathlib.Data.Rat.Floor
 import Mathlib.Tactic.NormNum
 import Mathlib.Tactic.IntervalCases
@@ -71,43 +72,88 @@ theorem C07_split_tiles {b : Basis K} (hv : b.Valid) (lo mid hi : ℕ)
   · rw [b.piece_start 0 mid hp (by omega) (Nat.zero_le _), Nat.zero_add]; rfl
   · rw [b.piece_stop mid b.nAll hp (by have := hv.nAll_add; omega) (by omega)]; rfl
 
-/-- **Split, periodic direction** (what `roll(mu)`, `np.roll(cps, -mu)` and the ghost removal
-produce).  `τ` is the periodic knot sequence after the insertions, continued periodically
-(`τ (i+n) = τ i + T`), `c` the periodically continued control points, `μ = bisect_left(knots, x)`
-the first of the `p = q+1` copies of the split value `x = τ (μ+q)`, which lies in the base period.
-The `n` control points from `μ` on with the knots from `μ` on are an open curve on `[x, x+T]`:
-ONE FULL PERIOD starting at the split point, equal to the periodic map (`orig`) at `t` before the
-seam and at `t - T` after it.
+/-- **Split, periodic direction — the model's `Obj.split` at one value** (curves, surfaces,
+volumes; fibre-wise).  `dir` is a valid periodic direction (continuity `k`, `n` functions, order `p`)
+under the guard `n ≥ p + k` of periodic knot insertion (`C04_periodic_partial`), the control net has
+`n` rows along `dir`, and the split value lies in the base period, `start ≤ x0 < end`.  Then
+`split(x0, dir)` returns a SINGLE OBJECT `op` (not a list) whose basis along `dir` is a valid
+non-periodic basis of the same order on `[x0, x0 + T]` — ONE FULL PERIOD STARTING AT THE SPLIT POINT
+— the other bases and `rational` are untouched, and every control-net fibre of `op` evaluates, at
+every `t` of `[x0, x0+T]` (inward sides at the ends), to the wrapped-image sum `wsum` of the original
+periodic object: at `t` before the seam `end`, at `t - T` from the seam on.
+Proof: the insertion loop is a `PerRefines` sequence (C04), `Basis.roll` / `Tensor.rollAxisNeg`
+produce the shifted periodic sequences `ext (μ+·)`, `(·+μ) % n` (`Lemmas/C07Roll.lean`), and
+`splineVal_open_periodic` cuts one period out of the periodic family.
 
-`_partial`: (i) `hPeriodicInsertion` — the periodic spline after the insertion loop is still the
-original periodic map — is property C04's statement for periodic `insert_knot`, which the pinned
-code violates for `n < p + k` and at the seam; it is a hypothesis here.  (ii) That `Basis.roll` /
-`Tensor.rollAxisNeg` compute the shifted sequences is tested by the correspondence run, not proved. -/
-theorem C07_split_periodic_partial (τ : ℕ → K) (hτ : Monotone τ) (n : ℕ) (hn : 1 ≤ n) (T : K)
-    (hper : ∀ i, τ (i + n) = τ i + T) (c : ℕ → K) (hc : ∀ i, c (i + n) = c i) (q μ N : ℕ)
-    (hμ : τ μ = τ (μ + q)) (hN : τ q + T ≤ τ N) (hx : τ (μ + q) ≤ τ q + T)
-    (orig : Side → K → K)
-    (hPeriodicInsertion : ∀ s t, s.mem (τ q) (τ q + T) t → splineVal s τ q N c t = orig s t)
-    (s : Side) (t : K) (ht : s.mem (τ (μ + q)) (τ (μ + q) + T) t) :
-    (s.before t (τ q + T) →
-      splineVal s (fun j => τ (μ + j)) q n (fun j => c (μ + j)) t = orig s t) ∧
-    (s.after (τ q + T) t →
-      splineVal s (fun j => τ (μ + j)) q n (fun j => c (μ + j)) t = orig s (t - T)) := by
-  obtain ⟨hA, hB⟩ := splineVal_open_periodic τ hτ n T hper c hc s q μ N hn hμ hN hx t ht
-  have ht' := (Side.mem_iff s _ _ t).1 ht
-  constructor
-  · intro hb
-    rw [hA hb]
-    apply hPeriodicInsertion
-    rw [Side.mem_iff]
-    exact ⟨Side.after_of_le s (hτ (by omega)) ht'.1, hb⟩
-  · intro ha
-    rw [hB ha]
-    apply hPeriodicInsertion
-    rw [Side.mem_iff]
-    refine ⟨(Side.after_add s _ _ _).1 ha, ?_⟩
-    rw [← Side.before_add]
-    exact Side.before_of_le s (by linarith) ht'.2
+`_partial`: `hMult` — after the insertion loop of the MODEL the split value has multiplicity `≥ p`
+at `bisect_left` (what inserting `continuity + 1` copies establishes when the tolerance comparison
+in `continuity` is exact) — is a decidable condition on the model's intermediate result, kept as a
+hypothesis (checked by kernel evaluation in the example below); the guard excludes `n < p + k`
+(where the pinned code is wrong) and split values outside the base period (where the pinned code
+uses the un-wrapped value in `bisect_left`).  Later split values: the result is an open object, see
+`C07_split_periodic_pieces`. -/
+theorem C07_split_periodic_partial [FloorRing K] (o : Obj K) (dir : ℕ) (hdir : dir < o.bases.size)
+    (hax : dir < o.cps.shape.length) (hv : (o.basis dir).Valid) (k : ℕ)
+    (hk : (o.basis dir).periodic = (k : Int))
+    (hguard : (o.basis dir).order + k ≤ (o.basis dir).numFunctions)
+    (hshape : o.cps.shape.getD dir 0 = (o.basis dir).numFunctions) (tol x0 : K)
+    (hx : (o.basis dir).start ≤ x0 ∧ x0 < (o.basis dir).stop)
+    (hMult : ∀ so, o.splitInsert tol [x0] dir = .ok so →
+      (so.basis dir).kn ((so.basis dir).bisectL x0) = x0 ∧
+      (so.basis dir).kn ((so.basis dir).bisectL x0 + (o.basis dir).order - 1) = x0) :
+    ∃ op m, o.split tol [x0] dir = .ok (.single op) ∧
+      (op.basis dir).Valid ∧ (op.basis dir).periodic = -1 ∧
+      (op.basis dir).order = (o.basis dir).order ∧
+      (op.basis dir).numFunctions = (o.basis dir).numFunctions + m ∧
+      (op.basis dir).start = x0 ∧
+      (op.basis dir).stop = x0 + ((o.basis dir).stop - (o.basis dir).start) ∧
+      (∀ d, d ≠ dir → op.basis d = o.basis d) ∧ op.rational = o.rational ∧
+      op.cps.shape = o.cps.shape.set dir ((o.basis dir).numFunctions + m) ∧
+      ∀ a i, a < C04.outerN o dir → i < C04.innerN o dir → ∀ (s : Side) (t : K),
+        s.mem x0 (x0 + ((o.basis dir).stop - (o.basis dir).start)) t →
+        (s.before t (o.basis dir).stop →
+          splineVal s (op.basis dir).kn ((o.basis dir).order - 1) ((o.basis dir).numFunctions + m)
+              (C04.fibre op dir a i) t
+            = C04.wsum s (o.basis dir).kn ((o.basis dir).order - 1) (o.basis dir).nAll
+                (o.basis dir).numFunctions (C04.fibre o dir a i) 0 t) ∧
+        (s.after (o.basis dir).stop t →
+          splineVal s (op.basis dir).kn ((o.basis dir).order - 1) ((o.basis dir).numFunctions + m)
+              (C04.fibre op dir a i) t
+            = C04.wsum s (o.basis dir).kn ((o.basis dir).order - 1) (o.basis dir).nAll
+                (o.basis dir).numFunctions (C04.fibre o dir a i) 0
+                (t - ((o.basis dir).stop - (o.basis dir).start))) :=
+  split_periodic_single o dir hdir hax hv k hk hguard hshape tol x0 hx hMult
+
+/-- **Later split values of a periodic direction.**  The object `op` opened at the first split
+value is an ordinary open object; the remaining values are split by the non-periodic branch, i.e.
+`C07_split_open` applies to the refinement `(b, c)` of any fibre `(bo, n', co)` of `op`: every piece
+is an exact restriction of the opened curve, which by `C07_split_periodic_partial` is the periodic
+map on `[x0, x0+T]`.  Stated for values (`d = 0`). -/
+theorem C07_split_periodic_pieces {b : Basis K} (hv : b.Valid) (c : ℕ → K)
+    (τo : ℕ → K) (no : ℕ) (co : ℕ → K) (hτo : Monotone τo) (steps : List (ℕ × K))
+    (hlegal : SplineData.Legal (b.order - 1) ⟨τo, no, co⟩ steps)
+    (hins : SplineData.insertAll (b.order - 1) ⟨τo, no, co⟩ steps = ⟨b.kn, b.nAll, c⟩)
+    (per : Side → K → K)
+    (hopen : ∀ s t, s.mem (b.kn (b.order - 1)) (b.kn b.nAll) t → splineVal s τo (b.order - 1) no co t = per s t)
+    (lo hi : ℕ) (h1 : lo + b.order ≤ hi) (h2 : hi ≤ b.nAll)
+    (hlt : b.kn (lo + b.order - 1) < b.kn hi) (s : Side) (t : K)
+    (ht : s.mem (b.piece lo hi).start (b.piece lo hi).stop t) :
+    splineVal s (b.piece lo hi).kn (b.order - 1) (hi - lo) (fun j => c (lo + j)) t = per s t := by
+  obtain ⟨_, _, _, _, hst, hsp, heval⟩ :=
+    C07_split_open hv c ⟨τo, no, co⟩ hτo steps hlegal hins lo hi h1 h2 hlt (0 : K) (le_refl _)
+  have := heval s 0 t ht
+  have e1 : ∀ (τ : ℕ → K) (n : ℕ) (cc : ℕ → K), splineDeriv s τ (b.order - 1) n cc 0 t
+      = splineVal s τ (b.order - 1) n cc t := by
+    intro τ n cc
+    unfold splineDeriv splineVal
+    exact Finset.sum_congr rfl (fun i _ => by rw [dB_zero])
+  rw [e1, e1] at this
+  rw [this]
+  apply hopen
+  rw [hst, hsp] at ht
+  rw [Side.mem_iff] at ht ⊢
+  have hp := hv.order_pos
+  exact ⟨Side.after_of_le s (hv.kn_mono (by omega)) ht.1, Side.before_of_le s (hv.kn_mono h2) ht.2⟩
 
 /-- **Append** of two clamped curves of the same order `p = q+1 ≥ 2` whose end points coincide
 (`c1 (n1-1) = c2 0`): the merged knot vector `old[:-1] ++ (add - add[0] + old[-1])[p:]` with the
@@ -183,7 +229,7 @@ example (c : ℕ → ℚ) : SplineData.Legal 2 ⟨C07_ex0.kn, 3, c⟩ [(3, 1), (
   norm_num [Basis.kn, C07_ex0]
 
 /-- A periodic knot sequence with double knots (`q = 1`, `n = 4`, `T = 2`) meeting every hypothesis
-of `C07_split_periodic_partial` (`μ = 2`, `N = 4`). -/
+of the specification lemma `splineVal_open_periodic` behind `C07_split_periodic_partial` (`μ = 2`, `N = 4`). -/
 example : ∃ (τ : ℕ → ℚ) (c : ℕ → ℚ), Monotone τ ∧ (∀ i, τ (i + 4) = τ i + 2) ∧ (∀ i, c (i + 4) = c i)
     ∧ τ 2 = τ (2 + 1) ∧ τ 1 + 2 ≤ τ 4 ∧ τ (2 + 1) ≤ τ 1 + 2 := by
   refine ⟨fun j => ((j / 2 : ℕ) : ℚ), fun i => ((i % 4 : ℕ) : ℚ), ?_, ?_, ?_, ?_, ?_, ?_⟩
@@ -215,3 +261,29 @@ example : ∃ (τ1 τ2 : ℕ → ℚ), Monotone τ1 ∧ Monotone τ2 ∧ τ1 2 =
     all_goals first | (norm_num; done) | (exfalso; omega)
   · norm_num
   · norm_num
+
+/-- Periodic quadratic curve (`p = 3`, `k = 0`, `n = 4 ≥ p + k`) for `C07_split_periodic_partial`. -/
+def C07_exPer : Obj ℚ :=
+  { bases := #[⟨3, #[-1, 0, 0, 1, 2, 3, 3, 4], 0⟩],
+    cps := { shape := [4, 2], data := #[0, 0, 1, 2, 3, 1, 2, -1] }, rational := false }
+
+/-- `hMult` holds for the split value `1/2` (between knots: three copies are inserted), checked by
+kernel evaluation of the model's insertion loop. -/
+theorem C07_exPer_hMult : ∀ so, C07_exPer.splitInsert (1 / 10 ^ 10) [1/2] 0 = .ok so →
+    (so.basis 0).kn ((so.basis 0).bisectL (1/2)) = 1/2 ∧
+    (so.basis 0).kn ((so.basis 0).bisectL (1/2) + (C07_exPer.basis 0).order - 1) = 1/2 := by
+  intro so h
+  have hd : (match C07_exPer.splitInsert (1 / 10 ^ 10) [1/2] 0 with
+      | .ok so => decide ((so.basis 0).kn ((so.basis 0).bisectL (1/2)) = 1/2 ∧
+          (so.basis 0).kn ((so.basis 0).bisectL (1/2) + (C07_exPer.basis 0).order - 1) = 1/2)
+      | .error _ => false) = true := by decide +kernel
+  rw [h] at hd
+  exact of_decide_eq_true hd
+
+/-- … and what the model returns for it: one open quadratic on `[1/2, 7/2]`. -/
+theorem C07_exPer_split :
+    (match C07_exPer.split (1 / 10 ^ 10) [1/2] 0 with
+      | .ok (.single o) => ((o.basis 0).knots.toList, (o.basis 0).periodic, o.cps.shape)
+      | _ => ([], 0, []))
+    = ([1/2, 1/2, 1/2, 1, 2, 3, 3, 7/2, 7/2, 7/2], -1, [7, 2]) := by
+  decide +kernel
